@@ -225,6 +225,11 @@ func newIndexColumn(e Expression, collate string, sort SortOrder) IndexedColumn 
 		collate = ""
 	}
 	col := AsColumn(e)
+	if lit, ok := e.(string); ok {
+		// SQLite takes a string literal in a list of indexed columns for the
+		// name of a column: UNIQUE ('a') is UNIQUE (a), and so is UNIQUE (('a'))
+		col = lit
+	}
 	ex := ""
 	if col == "" {
 		ex = AsString(e)
